@@ -242,15 +242,20 @@ package engine
 // A merge is applied eagerly; the running total of a key merged or put earlier in the same batch is kept in
 // wb.cachedForMerge.  What is remembered for the key is exactly what was handed to the index in this step: an 8-byte
 // little-endian counter equal to (total so far) + (operand), both read with the engine-independent counter decoding,
-// wrapping like the pebble / rocksdb uint64add operator (Uint64AddMerger above).
+// wrapping like the pebble / rocksdb uint64add operator (Uint64AddMerger above).  Every merge that reached the index is
+// remembered (the cache is created on demand): ghost(mapupd, cache) counts the remembered ones.
 //@ property C20
 //@ func (mi *radixMemIndex) Put(txn *memdb.Txn, key []byte, value []byte) error
-//@   trusted copies key and value into the radix transaction; the arguments are not written
+//@   trusted copies key and value into the radix transaction; the arguments are not written; ghost(rputs, mi) counts the successful ones
 //@   opt anymode
+//@   ensures result == nil ==> ghost(rputs, mi) == old(ghost(rputs, mi)) + 1
+//@   ensures result != nil ==> ghost(rputs, mi) == old(ghost(rputs, mi))
+//@   modifies ghost(rputs, mi)
 //@ extern (*github.com/youzan/ZanRedisDB/engine/radixdb.MemDB).Txn func(db *memdb.MemDB, write bool) *memdb.Txn
 //@ func (wb *memWriteBatch) Merge(key []byte, value []byte)
 //@   mode bv
 //@   requires wb != nil && wb.db != nil && wb.db.radixMemI != nil && wb.db.radixMemI.memkv != nil
 //@   callassert Put len(arg3) == 8 && le64(arg3, 0) == counterVal(oldV) + counterVal(value)
+//@   ensures ghost(rputs, wb.db.radixMemI) != old(ghost(rputs, wb.db.radixMemI)) ==> wb.cachedForMerge != nil && (old(wb.cachedForMerge) != nil ==> wb.cachedForMerge == old(wb.cachedForMerge) && ghost(mapupd, wb.cachedForMerge) == old(ghost(mapupd, wb.cachedForMerge)) + 1) && (old(wb.cachedForMerge) == nil ==> ghost(mapupd, wb.cachedForMerge) == 1)
 //@   mapassert wb.cachedForMerge len(mapval) == 8 && le64(mapval, 0) == counterVal(oldV) + counterVal(value) && bytesEq(mapkey, key)
 //@   modifies *
